@@ -405,7 +405,7 @@ def run(ctx):
     wit = load_witnesses()
     # with seeded evidences, and as they are: the scenario whose validator with five delegators is penalised for
     # inactivity (4) and the handler-check scenario (5) must not be disturbed by an earlier expulsion
-    scen = [add_evidences(s, rnd) for s in C07.scenarios()] + [C07.scenarios()[i] for i in (0, 4, 5)] + [reorg_scenario()]
+    scen = [add_evidences(s, rnd) for s in C07.scenarios()] + [C07.scenarios()[i] for i in (0, 4, 5, 6)] + [reorg_scenario()]
     ctx.note("programs: %d witnesses, %d scenarios, %d design cex, %d bounded programs, %d simulated histories" % (
         len(wit), len(scen), len(expect), len(small) - len(expect), len(sim)))
     for b in (small[0], sim[0] if sim else None):
